@@ -11,6 +11,9 @@ var sqrtRootLookup []int
 // operation can be slow.
 func SqrtRootFunction(baseline int) func(estimatedLimit int) int {
 	return func(estimatedLimit int) int {
+		if estimatedLimit < 0 {
+			estimatedLimit = 0
+		}
 		if estimatedLimit < len(sqrtRootLookup) {
 			return max(baseline, sqrtRootLookup[estimatedLimit])
 		}
